@@ -88,4 +88,9 @@ for i in u["instances"]:
     else:
         twins.append(m)
 u["instances"]+=twins
+EXPECTED_S={'reMax': 30, 'assign': 30, 'copyctor': 5, 'reMax_mem': 30, 'assign_mem': 35, 'assign_memgrow': 30, 'copyctor_mem': 3}
+THOROUGH_ONLY=['assign_memgrow', 'reMax_mem']
+for _i in u["instances"]:
+    if _i["name"] in EXPECTED_S: _i["expected_s"]=EXPECTED_S[_i["name"]]
+    if _i["name"] in THOROUGH_ONLY: _i["tier"]="thorough"
 json.dump(u, open(os.path.join(os.path.dirname(os.path.abspath(__file__)), "unit.json"), "w"), indent=1)
